@@ -14,6 +14,8 @@ Rules
          on both tables (C01 R1.1 decides the dictionary itself)
   R16.4  missing core properties: the accessor falls back to a default part and relates it
   R16.5  slide parts are renamed in presentation order, 1..n, from the id list
+  R16.6  internal "cannot happen" exits (bare Exception) on these paths are unreachable: the candidate scan before them
+         cannot be exhausted (pigeonhole on the loop bounds, shared with C06 R6.2)
   (which exception escapes third-party code for arbitrary corrupt bytes: not decided)
 """
 
@@ -249,6 +251,9 @@ def run(ctx):
                 outcomes.append(("dir", what))
             elif "is_zipfile" in tsrc:
                 outcomes.append(("zip", what))
+            elif what == "_ZipPkgReader":
+                probs.append("the zip reader is chosen under `%s`, not after zipfile.is_zipfile: an existing file that is not a zip raises "
+                             "BadZipFile instead of PackageNotFoundError" % tsrc)
             else:
                 probs.append("unrecognised branch `%s`" % tsrc)
         elif isinstance(st, ast.Raise):
@@ -343,6 +348,9 @@ def run(ctx):
     else:
         ctx.violation("R16.3", "PartFactory._part_cls_for", "a content type without a registered class does not fall back to Part",
                       file=pk.relpath, line=pcf.line if pcf else 1)
+    from checks.c01 import content_type_rules
+
+    content_type_rules(ctx, prog, ser, pk, prog.modules["pptx.opc.spec"], prog.modules["pptx.opc.oxml"], "R16.3")
     ctm = pk.classes.get("_ContentTypeMap")
     fxm = ctm.methods.get("from_xml") if ctm else None
     both = 0
@@ -405,3 +413,29 @@ def run(ctx):
     else:
         ctx.violation("R16.5", "Presentation.slides", "rename_slide_parts is not given the rIds of all p:sldId in document order",
                       file=prs.file, line=sl.line if sl else prs.line)
+
+    # -- R16.6 -------------------------------------------------------------------------------------------
+    ctx.rule("R16.6", "'cannot happen' exits (bare Exception) on the open / first-access paths are unreachable")
+    from checks.c06 import scan_exhaustion_problem
+
+    nimp = 0
+    for g in prog.all_functions():
+        if not g.module.name.startswith(("pptx.opc.", "pptx.package", "pptx.api", "pptx.parts.presentation", "pptx.parts.coreprops")):
+            continue
+        bare = [n for n in ast.walk(g.node) if isinstance(n, ast.Raise) and isinstance(n.exc, ast.Call) and dotted(n.exc.func) == "Exception"]
+        if not bare:
+            continue
+        nimp += 1
+        key = "%s:raise Exception" % g.qualname
+        # recognised justification: the raise follows a candidate scan that cannot be exhausted (pigeonhole, decided on the loop bounds)
+        loops = [n for n in ast.walk(g.node) if isinstance(n, ast.For) and any(
+            isinstance(c, ast.Compare) and isinstance(c.ops[0], ast.NotIn) for c in ast.walk(n))]
+        prob = scan_exhaustion_problem(g.node)
+        last_is_raise = g.node.body and g.node.body[-1] in bare
+        if loops and last_is_raise and prob is None:
+            ctx.ok("R16.6", key, sample={"function": g.fq, "unreachable_because": "the scan before it tries at least |population|+1 distinct candidates"})
+        elif prob is not None:
+            ctx.violation("R16.6", key, "an internal error (bare Exception) is reachable: %s" % prob, file=g.file, line=bare[0].lineno)
+        else:
+            ctx.error(key, "bare `raise Exception` whose unreachability this analysis cannot show")
+    ctx.count("impossible_exits", nimp)
